@@ -192,6 +192,13 @@ def judge(run, mon, fcp, sch, name, data, text, kind, expect, nodes, sig, value=
             run.case(sig=sig)
             return
         if not ref.same(out[1], expect[1]):
+            model, n = CC.signed_min_model(sch, ("struct", name), expect[1])
+            if n and ref.same(out[1], model):
+                # known finding serde-signed-min-decodes-positive (C01/C02's business): the corrupted input
+                # happens to hold the pattern 100..0 in a signed field; nothing was fabricated
+                run.count("parsable_corruptions_with_signed_min")
+                run.case(sig=sig)
+                return
             case["returned"] = out[1]
             case["reference"] = expect[1]
             run.violation("decode of a corrupted-but-parsable input differs from the reference (%s)" % kind, case)
